@@ -1,7 +1,7 @@
 CHECK = {'rule': 'rapid-generated terminal scripts run through the real terminal service of a bootstrapped MockupApp (terminal, common, oc and pipeline '
          'modules) on a child scope of the application scope (sharing the app context, with a fresh context, or with an isolated context): 0-2 '
          'leading probes, 1-3 top-level pip:try blocks with optional (possibly failing) probes between/after them; bodies of 1-4 commands (probe '
-         'commands with generated duration: none / 1-5 yields / 20 us - 2.5 ms, nested pip:run tasks up to two levels, nested pip:try blocks), a '
+         'commands with generated duration: none / 1-5 yields / 20 us - 2.5 ms, nested pip:run tasks up to two levels - in the self sandbox, in a harness control sandbox that runs the body through the terminal, or in a sandbox that fails while it is set up (a harness sandbox whose Run returns an error without touching the scope, or container:<image>, where the real command line engine refuses the in-memory working directory before executing anything; such a task is a failing command of the enclosing context, its begin/end events are written by the harness sandbox / a recording engine wrapper) - and nested pip:try blocks), a '
          'failing command at a uniform position in 55 % of the bodies (a probe, a command of a nested task, or a handler of a nested try), every '
          'subset of success/fail/finally handlers (each 65 %), handlers that themselves fail (18 %) or contain tasks / try blocks, here-document and '
          'quoted spellings, --silent on/off, GOMAXPROCS in {1,2,4,8}. Probe commands write begin/end events into one sequence-numbered log. Oracle '
@@ -11,7 +11,7 @@ CHECK = {'rule': 'rapid-generated terminal scripts run through the real terminal
          'of the try or an enclosing one - sibling-failure exemption); Err() of the surrounding scope is non-nil iff a command of its own context '
          '(a handler or a top-level probe) failed; the application scope agrees (shared) or stays clean (own/isolated); RunLoop, Wait and Close of '
          'the surrounding scope return (watchdog 20 s, then the partial log is judged by the same clauses, otherwise inconclusive). TestEnum adds '
-         'the grid 8 handler subsets x 10 body shapes x {no / each defined handler fails} x 3 context kinds. Non-trivial: an entered try block '
+         'the grid 8 handler subsets x 14 body shapes (four with nested tasks in the control / set-up-failing sandboxes) x {no / each defined handler fails} x 3 context kinds. Non-trivial: an entered try block '
          'whose body has >= 2 commands or a nested task/try and >= 1 handler defined, run to completion. Distinct = distinct case JSON (FNV-64).',
  'assumptions': ['"the body finished with an error" is read off the log: a failing probe whose context is the body context began (it always returns an '
                  'error, which the terminal appends to that context); task names are unique so no submission is refused for other reasons',
@@ -35,6 +35,11 @@ CHECK = {'rule': 'rapid-generated terminal scripts run through the real terminal
                               'exempt:skipped-after-sibling-failure',
                               'nested-try:in-body',
                               'nested-try:in-handler',
+                              'task-fails-at-sandbox-setup:body',
+                              'task-fails-at-sandbox-setup:handler',
+                              'sandbox:broken',
+                              'sandbox:container',
+                              'sandbox:control',
                               'ctx:shared',
                               'ctx:own',
                               'ctx:isolated']},
